@@ -49,6 +49,9 @@ pub enum Scenario {
     Errors { track: usize, objects: u16, cleanup_each: bool },
     /// stalled objects, unfinished FDT instances and idle sessions, then timeouts + cleanup
     Cleanup { stalled: u16, fdt_ids: u16, sessions: u16, session_timeout: bool, timeout_ms: u64 },
+    /// stalled objects in a session that stays busy: complete FDT instances (listing other objects) and
+    /// packets of another object keep arriving more often than the object timeout, cleanup after each
+    Busy { stalled: u16, timeout_ms: u64, other_object: bool },
 }
 
 const SLACK: isize = 96 << 10;
@@ -242,6 +245,64 @@ pub fn run_scenario(s: &Scenario) -> CaseResult {
             info.label_if(*fdt_ids > 0, "unfinished FDT instances");
             info.label_if(*session_timeout, "sessions expire");
         }
+        Scenario::Busy { stalled, timeout_ms, other_object } => {
+            let spec = RxSpec { object_timeout_ms: Some(*timeout_ms), session_timeout_ms: None, cleanup_each_push: false, ..RxSpec::default_once() };
+            let mut rx = Rx::new(&spec, Faults::none());
+            let body = vec![0x77u8; 100];
+            let tsi = 21u64;
+            let mut t = 0u64;
+            for i in 0..*stalled as u32 {
+                // cached (no OTI known) and in-band objects that miss a symbol; no FDT will ever list them
+                let p = if i % 2 == 0 { pkt(tsi, 1000 + i as u128, vec![], 0, 0, &body, false) } else { pkt(tsi, 1000 + i as u128, vec![nocode_fti(200, 100, 4)], 0, 0, &body, false) };
+                rx.push(&p, now(t));
+                t += 1;
+            }
+            let stalled_at = std::time::Instant::now();
+            let before = rx.mr.nb_objects();
+            let gap = Duration::from_millis((*timeout_ms / 4).max(1));
+            let mut instances = 0u32;
+            let mut in_window = 0u32;
+            let mut last = std::time::Instant::now();
+            let mut esi = 0u32;
+            // traffic for 2 x timeout + 30 ms after the last packet of the stalled objects
+            while stalled_at.elapsed() < Duration::from_millis(2 * *timeout_ms + 30) {
+                std::thread::sleep(gap);
+                instances += 1;
+                let fdt = ForeignFdt::new(4_000_000_000).file(ForeignFile::new(5000 + instances as u128, &format!("file:///busy/{}", instances)).with("Content-Length", 100u64).with("Transfer-Length", 100u64));
+                let xml = fdt.to_xml().into_bytes();
+                rx.push(&fdt_pkt(tsi, instances, &xml, 0, 0, 60000, xml.len() as u64), now(t));
+                t += 1;
+                if *other_object {
+                    // an object of 60000 symbols that keeps receiving: it must stay, the stalled ones must go
+                    rx.push(&pkt(tsi, 9, vec![nocode_fti(6_000_000, 100, 60000)], 0, esi, &body, false), now(t));
+                    esi += 1;
+                    t += 1;
+                }
+                rx.mr.cleanup(now(t));
+                if last.elapsed() < Duration::from_millis(*timeout_ms) {
+                    in_window += 1;
+                }
+                last = std::time::Instant::now();
+            }
+            rx.mr.cleanup(now(t + 1));
+            let left = rx.mr.nb_objects();
+            let expected = if *other_object { 1 } else { 0 };
+            if left > expected {
+                return Err(format!(
+                    "{} stalled objects received their last packet {} ms ago (object timeout {} ms); the session stayed busy ({} complete FDT instances listing other objects{}, cleanup() after each) and nb_objects() is still {} (expected {})",
+                    stalled,
+                    stalled_at.elapsed().as_millis(),
+                    timeout_ms,
+                    instances,
+                    if *other_object { " and packets of another object" } else { "" },
+                    left,
+                    expected
+                ));
+            }
+            info.nt(before > 0 && in_window >= 2);
+            info.label("stalled objects in a busy session");
+            drop(rx);
+        }
     }
     Ok(info)
 }
@@ -253,6 +314,7 @@ pub fn scenario_strategy() -> BoxedStrategy<Scenario> {
         3 => (limit, prop_oneof![Just(16u16), Just(64), Just(256)], 1u32..9, 0usize..9).prop_map(|(limit, e, b, track)| Scenario::Blocks { limit, e, b, track }),
         2 => (0usize..9, 1u16..40, any::<bool>()).prop_map(|(track, objects, cleanup_each)| Scenario::Errors { track, objects, cleanup_each }),
         2 => (0u16..12, 0u16..12, 1u16..4, any::<bool>(), 2u64..8).prop_map(|(stalled, fdt_ids, sessions, session_timeout, timeout_ms)| Scenario::Cleanup { stalled, fdt_ids, sessions, session_timeout, timeout_ms }),
+        1 => (1u16..8, 20u64..41, any::<bool>()).prop_map(|(stalled, timeout_ms, other_object)| Scenario::Busy { stalled, timeout_ms, other_object }),
     ]
     .boxed()
 }
@@ -265,7 +327,7 @@ pub fn run(eng: &mut Engine) {
     eng.generated(
         PartCfg::new(
             "scenarios",
-            "traffic that keeps objects undecodable: (cache) packets of an FDT-only object whose FDT never comes, N then 3N more packets; (blocks) first block withheld while later blocks complete; (errors) many failing objects vs max_objects_error after every push; (cleanup) stalled objects + FDT instance ids that never complete + idle sessions, residual heap after timeouts+cleanup at scale 1 vs scale 4; limits 4 KiB..300 KiB, timeouts 2-8 ms; non-trivial = the configured limit was reached / stalled state existed; distinct by scenario",
+            "traffic that keeps objects undecodable: (cache) packets of an FDT-only object whose FDT never comes, N then 3N more packets; (blocks) first block withheld while later blocks complete; (errors) many failing objects vs max_objects_error after every push; (cleanup) stalled objects + FDT instance ids that never complete + idle sessions, residual heap after timeouts+cleanup at scale 1 vs scale 4; (busy) stalled objects in a session that keeps receiving complete FDT instances for other objects (and optionally another object's packets) more often than the 20-40 ms object timeout, cleanup after each, for 2x the timeout + 30 ms; limits 4 KiB..300 KiB, timeouts 2-8 ms; non-trivial = the configured limit was reached / stalled state existed; distinct by scenario",
             tier.pick(8000, 120_000),
         )
         .limit_s(120),
